@@ -291,6 +291,8 @@ def h_dict(ch: Chooser, vec: list, maxf: int):
                    and "tokens" not in f.tags and "list" not in f.tags and f.cat in ("element", "attribute") and not spec.elem_gen and not spec.attr_gen
                    and not f.meta.get("name") and "wrapper" not in f.tags]
         kinds += [f"corrupt:{f.name}" for f in corrupt] + [f"corrupt:{f.name}:blank" for f in corrupt]
+        # a JSON value of another JSON type: `true` where a number or date is declared (bool is a subclass of int in Python)
+        kinds += [f"corrupt:{f.name}:json-bool" for f in corrupt if next((t[2:] for t in f.tags if t.startswith("t:")), None) != "bool"]
         kind = ch.pick(kinds, "injection")
         fi = ch.choose(len(FLAGS), "flags", free=True)
         fup, fua, fcw = FLAGS[fi]
@@ -313,7 +315,7 @@ def h_dict(ch: Chooser, vec: list, maxf: int):
             fname = kind.split(":")[1]
             if fname not in d2 or d2[fname] is None:
                 return {"skip": True, "reason": "nothing to corrupt"}
-            raw = " " if kind.endswith(":blank") else "not-a-value!"
+            raw = " " if kind.endswith(":blank") else (True if kind.endswith(":json-bool") else "not-a-value!")
             d2[fname] = raw
         case = {"model": model.source.split("XmlTime\n", 1)[-1].strip(), "instance": model.instance_source(exprs), "data": repr(d2), "injection": kind,
                 "flags": {"fail_on_unknown_properties": fup, "fail_on_unknown_attributes": fua, "fail_on_converter_warnings": fcw}}
@@ -358,7 +360,8 @@ def h_dict(ch: Chooser, vec: list, maxf: int):
                     if not [w for w in wl2 if issubclass(w.category, ConverterWarning)]:
                         return bad("no-ConverterWarning", f"second decode of the same data in this process gave no warning: {got[1]!r}")
                     exp = replace_leaf(obj, fname, raw)
-                    if not same(got[1], exp):
+                    # (a JSON `true` may be kept as it is or in its lexical form 'true': the options only say warn or fail)
+                    if not same(got[1], exp) and not (raw is True and same(got[1], replace_leaf(obj, fname, "true"))):
                         return bad("value-not-kept-as-given", diff(exp, got[1]))
         return dict(ok=True, case=case, obs=kind.split(":")[0], nontrivial=h((repr(d2), fi)) if kind != "none" else None)
     finally:
